@@ -49,12 +49,13 @@ for d in sorted(glob.glob(os.path.join(SRC, "*"))):
     meta["what_i_ran"] = ["tools/confirm_mutant.sh /tmp/rt-out/%s  (demo on clean HEAD, git apply, go build with and without -tags verif, demo again, go test of the touched packages)" % name,
                           "tools/try_mutant.sh /tmp/rt-out/%s %s  (bin/check %s quick against a scratch worktree with the patch applied)" % (name, meta.get("property"), meta.get("property"))]
     if v: meta["check_verdict"] = v
-    if old.get("history"): meta["history"] = old["history"]
+    if old.get("history") and not meta.get("history"): meta["history"] = old["history"]
+    if isinstance(meta.get("history"), str): meta["history"] = [meta["history"]]
     json.dump(meta, open(os.path.join(dst, "meta.json"), "w"), indent=1)
     caught = "not run yet"
     if v:
         caught = ("caught, failing input (%s oracle failures)" % v.get("oracle_failures")) if v.get("failing_input") else ("caught, no-failing-input-found" if v.get("violation") else "MISSED (exit %s)" % v.get("exit"))
-    rows.append((name, meta.get("property"), meta.get("summary", ""), meta.get("needs", ""), caught, "; ".join(meta.get("history", []))))
+    rows.append((name, meta.get("property"), meta.get("summary", ""), meta.get("needs", ""), caught, "; ".join(h if isinstance(h, str) else json.dumps(h) for h in meta.get("history", []))))
 with open(os.path.join(ROOT, "seeded", "README.md"), "w") as f:
     f.write("# Seeded breaking changes\n\nWritten by engineers who saw only the property text; confirmed and run here (see DESIGN.md §9).\n`history` records changes that were missed at first and what was strengthened.\n\n| change | property | what was changed | needs to manifest | `bin/check <ID> quick` on it | history |\n|---|---|---|---|---|---|\n")
     for r in rows:
